@@ -515,6 +515,34 @@ func c19Neighbours(c *core.Ctx, idx int) {
 			}
 		}
 	}
+	// targets the caller prepared by hand: every combination of what the target holds already (the
+	// incoming string or another one, marked valid or not, the pointer set or nil) and what arrives
+	// (present, empty but present, absent) gives what the field gives without the option
+	pool := []string{"GBP", "", "EUR", "a value that is somewhat longer than the others"}
+	for _, held := range pool {
+		for _, heldValid := range []bool{false, true} {
+			for _, in := range pool {
+				for _, inValid := range []bool{true, false} {
+					msg := c19Intern{A: in, N: null.NewString(in, inValid), P: &in, I: 2}
+					data, err, pn := marshal(p, nil, &msg)
+					if err != nil || pn != "" {
+						rec.Violation("interning", fmt.Sprintf("[%s] Marshal: %v %s", name, err, pn), nil)
+						return
+					}
+					h1, h2 := held, held
+					got := c19Intern{A: held, B: held, N: null.NewString(held, heldValid), P: &h1, C: "c"}
+					twin := c19Plain{A: held, B: held, N: null.NewString(held, heldValid), P: &h2, C: "c"}
+					e1, p1 := unmarshal(p, data, &got)
+					e2, p2 := unmarshal(p, data, &twin)
+					rec.Eval(2)
+					if e1 != nil || e2 != nil || p1 != "" || p2 != "" || got.A != twin.A || got.B != twin.B || got.N != twin.N || (got.P == nil) != (twin.P == nil) || (got.P != nil && *got.P != *twin.P) {
+						rec.Violation("interning", fmt.Sprintf("[%s] a target prepared by hand (strings %q, null.String valid=%v) that decodes a message carrying %q (valid=%v): with the option A=%q B=%q N=%+v, without A=%q B=%q N=%+v (%v %v %s %s)", name, held, heldValid, in, inValid, got.A, got.B, got.N, twin.A, twin.B, twin.N, e1, e2, trunc1(p1), trunc1(p2)), nil)
+						return
+					}
+				}
+			}
+		}
+	}
 	rec.Count("one_bit_neighbour_runs", 1)
 	rec.NonTrivial(core.Hash64("neighbours", name, fmt.Sprint(idx)))
 }
